@@ -55,7 +55,7 @@ fn c06_group_mask() {
     kani::cover!(true, "BSV-END");
 }
 
-fn table_scan<const BUCKETS: usize, const KV: usize, const DATA: usize, const LEN: usize>() {
+fn table_scan<const BUCKETS: usize, const KV: usize, const DATA: usize, const LEN: usize, const MAXN: usize>() {
     // layout: [ DATA bytes of buckets | control bytes: BUCKETS + 16 ]
     let mut buf: [u8; LEN] = kani::any();
     let ctrl_off = DATA;
@@ -67,14 +67,22 @@ fn table_scan<const BUCKETS: usize, const KV: usize, const DATA: usize, const LE
         }
         i += 1;
     }
-    static mut SLOT: usize = 0;
+    // instance bound: at most MAXN elements in the table (MAXN = BUCKETS: no restriction)
+    let mut full = 0usize;
+    let mut i = 0;
+    while i < BUCKETS {
+        if buf[ctrl_off + i] & 0x80 == 0 {
+            full += 1;
+        }
+        i += 1;
+    }
+    kani::assume(full <= MAXN);
     let base = buf.as_ptr();
     let ctrl_ptr = unsafe { base.add(ctrl_off) };
     let ctrl_addr = ctrl_ptr as usize;
     unsafe {
         TABLE = base;
         TABLE_LEN = LEN;
-        SLOT = 0;
     }
     let refl = HashmapReflection::new(ctrl_ptr, BUCKETS - 1, KV);
     let it = refl.iter(Pid::from_raw(7));
@@ -86,7 +94,7 @@ fn table_scan<const BUCKETS: usize, const KV: usize, const DATA: usize, const LE
     let mut seen = [false; BUCKETS];
     let mut n = 0usize;
     let mut rounds = 0;
-    while rounds <= BUCKETS {
+    while rounds <= MAXN {
         let nx = it.next();
         bsv!(nx.is_ok(), "groups inside the table load");
         match nx {
@@ -120,9 +128,9 @@ fn table_scan<const BUCKETS: usize, const KV: usize, const DATA: usize, const LE
         }
         j += 1;
     }
-    kani::cover!(n >= 2, "two or more elements");
+    kani::cover!(MAXN < 2 || n >= 2, "two or more elements");
     kani::cover!(seen[BUCKETS - 1], "element in the last bucket");
-    kani::cover!(BUCKETS > 1 && buf[ctrl_off] == 0x80 && seen[BUCKETS - 1], "tombstone in bucket 0, element in the last bucket");
+    kani::cover!(BUCKETS < 2 || (buf[ctrl_off] == 0x80 && seen[BUCKETS - 1]), "tombstone in bucket 0, element in the last bucket");
     kani::cover!(true, "BSV-END");
 }
 
@@ -146,12 +154,12 @@ fn stub_read(_pid: Pid, addr: usize, n: usize) -> Result<Vec<u8>, nix::Error> {
 }
 
 macro_rules! scan {
-    ($name:ident, $b:literal, $kv:literal, $data:expr, $unw:literal) => {
+    ($name:ident, $b:literal, $kv:literal, $data:expr, $unw:literal, $maxn:literal) => {
         #[kani::proof]
         #[kani::stub(crate::debugger::read_memory_by_pid, stub_read)]
         #[kani::unwind($unw)]
         fn $name() {
-            table_scan::<$b, $kv, { $data }, { $data + $b + 16 }>();
+            table_scan::<$b, $kv, { $data }, { $data + $b + 16 }, $maxn>();
         }
     };
 }
@@ -166,8 +174,9 @@ macro_rules! scan {
 //@ oracle: the iterator yields exactly { ctrl - (i+1)*kv_size : ctrl[i] top bit clear, i < buckets }, each once
 //@ stubs: debugger::read_memory_by_pid -> the real harness allocation holding the table (EIO outside it)
 //@ assumes: hashbrown's layout guarantee that control bytes [buckets, 16) of a table smaller than a group are EMPTY
+//@ unwindset: table_scan=18; BucketIterator.*next=3; match_empty_or_deleted=17; read_memory_by_pid=17
 //@ timeout: 1200
-scan!(c06_hashbrown_scan_b4, 4, 8, 16 * 8, 18);
+scan!(c06_hashbrown_scan_b4, 4, 8, 16 * 8, 18, 4);
 
 //@ harness: c06_hashbrown_scan_b1
 //@ property: C06
@@ -179,8 +188,9 @@ scan!(c06_hashbrown_scan_b4, 4, 8, 16 * 8, 18);
 //@ oracle: as c06_hashbrown_scan_b4
 //@ stubs: read_memory_by_pid -> harness allocation
 //@ assumes: control bytes [buckets, 16) EMPTY
+//@ unwindset: table_scan=18; BucketIterator.*next=3; match_empty_or_deleted=17; read_memory_by_pid=17
 //@ timeout: 1200
-scan!(c06_hashbrown_scan_b1, 1, 1, 16, 18);
+scan!(c06_hashbrown_scan_b1, 1, 1, 16, 18, 1);
 
 //@ harness: c06_hashbrown_scan_b8
 //@ property: C06
@@ -192,20 +202,23 @@ scan!(c06_hashbrown_scan_b1, 1, 1, 16, 18);
 //@ oracle: as c06_hashbrown_scan_b4
 //@ stubs: read_memory_by_pid -> harness allocation
 //@ assumes: control bytes [buckets, 16) EMPTY
+//@ unwindset: table_scan=18; BucketIterator.*next=3; match_empty_or_deleted=17; read_memory_by_pid=17
 //@ timeout: 1800
-scan!(c06_hashbrown_scan_b8, 8, 24, 16 * 24, 18);
+scan!(c06_hashbrown_scan_b8, 8, 24, 16 * 24, 18, 8);
 
 //@ harness: c06_hashbrown_scan_b16
 //@ property: C06
 //@ obligation: H-C06-b
-//@ tier: quick
+//@ tier: thorough
 //@ encodes: HashmapReflection::iter, BucketIterator::next
 //@ symbolic: control bytes
 //@ bounds: 16 buckets (exactly one group), 8-byte entries; loops 18
 //@ oracle: as c06_hashbrown_scan_b4
 //@ stubs: read_memory_by_pid -> harness allocation
-//@ timeout: 2400
-scan!(c06_hashbrown_scan_b16, 16, 8, 16 * 8, 18);
+//@ unwindset: table_scan=18; BucketIterator.*next=3; match_empty_or_deleted=17; read_memory_by_pid=17
+//@ mem_gb: 32
+//@ timeout: 3600
+scan!(c06_hashbrown_scan_b16, 16, 8, 16 * 8, 18, 16);
 
 //@ harness: c06_hashbrown_scan_b32
 //@ property: C06
@@ -213,10 +226,10 @@ scan!(c06_hashbrown_scan_b16, 16, 8, 16 * 8, 18);
 //@ tier: quick
 //@ encodes: HashmapReflection::iter, BucketIterator::next (group advance path)
 //@ symbolic: control bytes of both groups
-//@ bounds: 32 buckets (two groups), 4-byte entries; harness loops 34, group loops 18
+//@ bounds: 32 buckets (two groups), 4-byte entries, at most 3 elements in the table at arbitrary positions (instance bound: every it.next() call may be the one that crosses the group boundary, which makes 33 calls too expensive); harness loops 34, group loops 17
 //@ oracle: as c06_hashbrown_scan_b4, across the group boundary (bucket 16.. are found through next_n(16))
 //@ stubs: read_memory_by_pid -> harness allocation
-//@ unwindset: table_scan=34; BucketIterator.*next=4
+//@ unwindset: table_scan=34; BucketIterator.*next=4; match_empty_or_deleted=17; read_memory_by_pid=17
 //@ timeout: 3600
 //@ mem_gb: 16
-scan!(c06_hashbrown_scan_b32, 32, 4, 32 * 4, 18);
+scan!(c06_hashbrown_scan_b32, 32, 4, 32 * 4, 18, 3);
